@@ -80,6 +80,11 @@ func runC17(c *Ctx) {
 
 	// ---- R-C17-COST
 	accountingInvRule(c, "R-C17-COST")
+	// MaxCost-RemainingCost() is what CostAdded-CostEvicted is compared with: the writers of `used` are the
+	// four with a metric pairing below, and RemainingCost is getMaxCost() - used, unclamped
+	importRulesWhere(c, runC03, map[string]string{"R-C03-WRITERS": "R-C17-COST", "R-C03-ROOM": "R-C17-COST"}, func(o *Obligation) bool {
+		return o.Rule == "R-C03-WRITERS" || o.Construct == "defaultPolicy.Cap" || o.Construct == "Cache.RemainingCost"
+	})
 	for _, name := range []string{"del", "updateIfHas", "add", "clear"} {
 		name := name
 		c.Group("R-C17-COST", "sampledLFU."+name+"#metrics", func() {
